@@ -1,10 +1,160 @@
 import CoxeterVerif.Driver.Proto
+import CoxeterVerif.Model.Heap
 
+/-!
+  Driver ops of C16 (heap machine, `Model/Heap.lean`).
+
+  `heap.run`  request
+    cls                      0 circle 1 ellipse 2 sphere 3 ellipsoid 4 polygon 5 convexPolygon
+                             6 spheropolygon 7 polyhedron 8 convexPolyhedron 9 spheropolyhedron
+    verts normal cen eqs seqs    five length-prefixed scalar lists: contents of `_vertices`, `_normal`,
+                             `_centroid`, `_equations`, `_simplex_equations` (ids 0..4)
+    volume                   `_volume`
+    edgesCached              i0|i1   (id 5 holds the cached `edges` when 1)
+    arg                      length-prefixed scalar list: the caller's argument array (id 6)
+    mode                     0: centroid answers come from the tables below (what the real getters
+                                returned, keyed by the CONTENT of the vertex array they were asked
+                                about — unknown content → 0);
+                             1: the centroid getter is the exactly translation-equivariant extension
+                                of the first table entry (`c0 + (v[0] − v0[0])`)  (used with `Q`)
+    cenTable                 n × (verts-key list, v3)      `Polygon/Polyhedron.centroid`
+    cenVTable                n × (verts-key list, v3)      `ConvexPolyhedron._centroid_from_…`
+    reps                     how many times the query is run in a row
+    query                    0 g | 1 n g* | 2 | 3 | 4 fmt | 5      (get, to_json, get_face_area,
+                             to_hoomd, save, query-with-argument)
+                             g = 0 vertices 1 normal 2 centroid 3 equations 4 normals
+                                 5 face_centroids 6 edges 7 inertia_tensor 8 other
+  reply (after the LAST repetition)
+    err                      i0 none | i1 AttributeError | i2 NotImplementedError | i3 other
+    n, then n × (tag, where) where = 0 new array | 1 is `_vertices` | 2 `_normal` | 3 `_centroid`
+                             | 4 `_equations` | 5 `_simplex_equations` | 6 `edges` cache
+                             | 7 `_face_centroids` | 8 `_simplex_areas` | 9 an older array that is
+                             no attribute any more
+    5 ints                   attribute still bound to its original array? (`_vertices` … `_simplex_equations`)
+    3 ints                   `_simplex_areas`, `_face_centroids`, `edges` cache present?
+    4 lists                  contents afterwards of the ORIGINAL arrays 0 (`_vertices`), 1 (`_normal`),
+                             2 (`_centroid`), 6 (argument)
+    3 lists                  contents of whatever `_vertices`, `_normal`, `_centroid` are bound to now
+    n lists                  contents of the returned arrays
+-/
 namespace OpsC16
+open C16 Scalar
+
+variable {α : Type} [Scalar α] [Codec α]
+
+def listEq (a b : List α) : Bool :=
+  match a, b with
+  | [], [] => true
+  | x :: a', y :: b' => Scalar.eqb x y && listEq a' b'
+  | _, _ => false
+
+def lookup (tbl : List (List α × V3 α)) (k : List α) : V3 α :=
+  match tbl with
+  | [] => V3.zero
+  | (k', v) :: r => if listEq k' k then v else lookup r k
+
+/-- exactly equivariant extension of the first table entry -/
+def equivariant (tbl : List (List α × V3 α)) (k : List α) : V3 α :=
+  match tbl, k with
+  | (x0 :: y0 :: z0 :: _, c) :: _, x :: y :: z :: _ => c + (⟨x, y, z⟩ - ⟨x0, y0, z0⟩)
+  | _, _ => V3.zero
+
+def mkMeas (mode : Nat) (cenT cenVT : List (List α × V3 α)) (eqs seqs : List α) (vol : α) : Meas α where
+  cen := fun vs _ => if mode = 0 then lookup cenT vs else equivariant cenT vs
+  cenV := fun _ vs => if mode = 0 then lookup cenVT vs else equivariant cenVT vs
+  vol := fun _ => vol
+  eqs := fun _ => eqs
+  seqs := fun _ => seqs
+  rot := fun _ vs => vs
+  gather := fun vs => vs
+  tensor2 := fun _ _ _ => []
+  tensor3 := fun _ _ => []
+  value := fun _ _ => []
+  withArg := fun _ _ _ => []
+  prep := fun _ _ a => a
+  stl := fun _ c => c
+
+def clsOf : Nat → Cls
+  | 0 => .circle | 1 => .ellipse | 2 => .sphere | 3 => .ellipsoid | 4 => .polygon
+  | 5 => .convexPolygon | 6 => .spheropolygon | 7 => .polyhedron | 8 => .convexPolyhedron
+  | _ => .spheropolyhedron
+
+def getterOf : Nat → Getter
+  | 0 => .vertices | 1 => .normal | 2 => .centroid | 3 => .equations | 4 => .normals
+  | 5 => .faceCentroids | 6 => .edges | 7 => .inertiaTensor | _ => .value "other"
+
+def rdScs (c : Ctx) : Rd (List α) := Rd.list c (Rd.sc c)
+
+def rdTable (c : Ctx) : Rd (List (List α × V3 α)) :=
+  Rd.list c (do let k ← rdScs c; let v ← Rd.v3 c; pure (k, v))
+
+def rdQuery (c : Ctx) : Rd Query := do
+  let code ← Rd.nat c
+  match code with
+  | 0 => do let g ← Rd.nat c; pure (.get (getterOf g))
+  | 1 => do let gs ← Rd.list c (Rd.nat c); pure (.toJson (gs.map getterOf))
+  | 2 => pure .getFaceArea
+  | 3 => pure .toHoomd
+  | 4 => do let f ← Rd.nat c; pure (.save f)
+  | _ => pure (.withArg "query" 6)
+
+def errCode : Option String → Int
+  | none => 0
+  | some "AttributeError" => 1
+  | some "NotImplementedError" => 2
+  | some _ => 3
+
+def whereIs (s : St α) (i : Id) : Int :=
+  if i = s.fVerts then 1 else if i = s.fNormal then 2 else if i = s.fCen then 3
+  else if i = s.fEqs then 4 else if i = s.fSeqs then 5
+  else if s.cEdges = some i then 6 else if s.cFaceCen = some i then 7
+  else if s.cAreas = some i then 8 else if i < 7 then 9 else 0
+
+def b2i (b : Bool) : Int := if b then 1 else 0
+
+def outList (l : List α) : String :=
+  if l.isEmpty then "i0" else s!"i{l.length} {Out.scs l}"
+
+def runOp (c : Ctx) : Rd String := do
+  let cls ← Rd.nat c
+  let verts : List α ← rdScs c
+  let normal : List α ← rdScs c
+  let cen : List α ← rdScs c
+  let eqs : List α ← rdScs c
+  let seqs : List α ← rdScs c
+  let vol : α ← Rd.sc c
+  let ec ← Rd.nat c
+  let arg : List α ← rdScs c
+  let mode ← Rd.nat c
+  let cenT ← rdTable c
+  let cenVT ← rdTable c
+  let reps ← Rd.nat c
+  let q ← rdQuery c
+  let M : Meas α := mkMeas mode cenT cenVT eqs seqs vol
+  let s0 : St α :=
+    { heap := [(0, verts), (1, normal), (2, cen), (3, eqs), (4, seqs), (5, []), (6, arg)], next := 7,
+      cls := clsOf cls, fVerts := 0, fNormal := 1, fCen := 2, fEqs := 3, fSeqs := 4, volume := vol,
+      consts := [], cAreas := none, cFaceCen := none, cEdges := if ec = 1 then some 5 else none,
+      handed := [], args := [] }
+  let mut s := s0
+  let mut o : Out α := {}
+  for _ in [0:reps] do
+    let r := run M q s
+    s := r.1
+    o := r.2
+  let rets := o.rets.map fun r => s!"i{r.tag} i{whereIs s r.id}"
+  let head := [s!"i{errCode o.err}", s!"i{o.rets.length}"] ++ rets ++
+    [Out.int (b2i (s.fVerts == 0)), Out.int (b2i (s.fNormal == 1)), Out.int (b2i (s.fCen == 2)),
+     Out.int (b2i (s.fEqs == 3)), Out.int (b2i (s.fSeqs == 4)),
+     Out.int (b2i s.cAreas.isSome), Out.int (b2i s.cFaceCen.isSome), Out.int (b2i s.cEdges.isSome)]
+  let cells := [s.get 0, s.get 1, s.get 2, s.get 6, s.get s.fVerts, s.get s.fNormal, s.get s.fCen] ++
+    o.rets.map fun r => s.get r.id
+  pure (" ".intercalate (head ++ cells.map outList))
 
 /-- driver ops of C16. `none` = unknown op. -/
 def run (α : Type) [Scalar α] [Codec α] (op : String) (c : Ctx) : Option (Rd String) :=
   match op with
+  | "heap.run" => some (runOp (α := α) c)
   | _ => none
 
 end OpsC16
